@@ -10,6 +10,19 @@ EVIDENCE = os.path.join(ROOT, "evidence")
 REPLAYS = os.path.join(ROOT, "replays")
 KNOWN = os.path.join(ROOT, "known_findings.json")
 
+# The checks registered in MANIFEST.json always build against /repo's working tree.  For trying the checks on a
+# scratch copy of the repository without touching /repo (seeded changes, tools/try_mutant_alt.sh) VERIF_REPO names
+# another tree: the harness sources are then copied to a private directory under /tmp (its go.mod replaces the
+# module by that tree), and evidence and replay files go there as well, so nothing of /verif is overwritten.
+REPO = os.path.abspath(os.environ.get("VERIF_REPO", "/repo"))
+ALT = REPO != "/repo"
+HARNESS_SRC = HARNESS
+if ALT:
+    _alt = "/tmp/verif-alt-" + hashlib.sha1(REPO.encode()).hexdigest()[:10]
+    HARNESS = os.path.join(_alt, "harness")
+    EVIDENCE = os.path.join(_alt, "evidence")
+    REPLAYS = os.path.join(_alt, "replays")
+
 GOENV = dict(os.environ, GOFLAGS="-mod=mod", GOPROXY="off", GOSUMDB="off", GOTOOLCHAIN="local",
              CGO_ENABLED=os.environ.get("CGO_ENABLED", "0"))
 
@@ -36,18 +49,22 @@ def go_sum():
     """The harness module mirrors /repo's go.mod (same requires, replaces and excludes, so that module
     resolution picks exactly the versions the repository builds with and that are in the module cache)
     and uses /repo's go.sum."""
-    src = open("/repo/go.mod").read()
+    if ALT:
+        os.makedirs(HARNESS, exist_ok=True)
+        sh(["rsync", "-a", "--delete", "--exclude", "bin", "--exclude", "go.mod", "--exclude", "go.sum",
+            HARNESS_SRC + "/", HARNESS + "/"])
+    src = open(os.path.join(REPO, "go.mod")).read()
     body = re.sub(r"^module .*$", "", src, count=1, flags=re.M)
     body = re.sub(r"^go [0-9.]+$", "", body, count=1, flags=re.M)
     body = re.sub(r"^toolchain .*$", "", body, flags=re.M)
     mod = ("module verif/harness\n\ngo 1.23\n\n" + body.strip() + "\n\n"
            "require (\n\tseata.apache.org/seata-go v0.0.0\n)\n\n"
-           "replace seata.apache.org/seata-go => /repo\n")
+           "replace seata.apache.org/seata-go => " + REPO + "\n")
     dst = os.path.join(HARNESS, "go.mod")
     if not os.path.exists(dst) or open(dst).read() != mod:
         with open(dst, "w") as f:
             f.write(mod)
-    sums = open("/repo/go.sum").read()
+    sums = open(os.path.join(REPO, "go.sum")).read()
     dsts = os.path.join(HARNESS, "go.sum")
     have = open(dsts).read() if os.path.exists(dsts) else ""
     if not set(sums.splitlines()) <= set(have.splitlines()):
